@@ -589,6 +589,25 @@ func compiledPatterns(p *Prog, f *ssa.Function) []CallSite {
 				seen[c] = true
 				out = append(out, CallSite{Instr: c, Common: &c.Call, Fn: c.Parent()})
 			}
+			// a package-level list of compiled patterns
+			if sl, ok := p.ConstGlobal(g).(*ssa.Slice); ok {
+				if arr, ok := sl.X.(*ssa.Alloc); ok {
+					for _, ref := range *arr.Referrers() {
+						ia, ok := ref.(*ssa.IndexAddr)
+						if !ok {
+							continue
+						}
+						for _, r2 := range *ia.Referrers() {
+							if st, ok := r2.(*ssa.Store); ok {
+								if c, ok := st.Val.(*ssa.Call); ok && calleeName(&c.Call) == "regexp.MustCompile" && !seen[c] {
+									seen[c] = true
+									out = append(out, CallSite{Instr: c, Common: &c.Call, Fn: c.Parent()})
+								}
+							}
+						}
+					}
+				}
+			}
 		}
 	}
 	return out
